@@ -161,6 +161,28 @@ Definition lattice_spec (bs : bounds) (spec : list Z) : res (bounds * list Z) :=
 Definition items (bs : bounds) (spec : list Z) : res (list (list Z * Z)) :=
   bind (indices_py bs) (fun idx => Ok (combine idx spec)).
 
+(* LatticeSpec.__getitem__ — not used by the converter (develop_lattice only
+   iterates items()); modelled because it lies in the anchored lines.
+   spec[index] with Python's negative indices *)
+Definition py_list_get (spec : list Z) (i : Z) : res Z :=
+  let n := Z.of_nat (List.length spec) in
+  let j := if i <? 0 then i + n else i in
+  if (j <? 0) || (n <=? j) then Err EIndex
+  else match nth_error spec (Z.to_nat j) with Some u => Ok u | None => Err EIndex end.
+
+(* the loop "for bound, subind in zip(self.bounds, arg)" *)
+Fixpoint getitem_index (bs : bounds) (arg : list Z) (index : Z) : res Z :=
+  match bs, arg with
+  | (lo, hi) :: r, i :: tl =>
+      if (i <? lo) || (hi <? i) then Err EValue
+      else getitem_index r tl (index * (hi - lo + 1) + i - lo)
+  | _, _ => Ok index
+  end.
+
+Definition spec_getitem_tuple (bs : bounds) (spec : list Z) (arg : list Z) : res Z :=
+  if negb (Nat.eqb (List.length arg) (List.length bs)) then Err EValue
+  else bind (getitem_index bs arg 0) (py_list_get spec).
+
 (* ------------------------------------------------------------------------ *)
 (* ParseMCNPCell.to_fillid                                                   *)
 (* ------------------------------------------------------------------------ *)
